@@ -146,6 +146,8 @@ pub const SITES: &[Site] = &[
     site!("tbody_array", "template<uint N> void tf() { float pa[N]; }\nvoid t() { tf<@>(); }\n", Look::LocalArray("pa"), ARR, via T::UInt, "@"),
     site!("tbody_arith", "template<uint N> void tf() { float pa[(N - 4) / 1073741824 + 1]; }\nvoid t() { tf<@>(); }\n", Look::LocalArray("pa"), ARR, via T::UInt, "(@ - 4) / 1073741824 + 1"),
     site!("tstruct_array", "template<uint N> struct TS { float pa[N]; };\nvoid t() { TS<@> ts; }\n", Look::MemberArray("TS", "pa"), ARR, via T::UInt, "@"),
+    site!("template_two", "template<uint N> uint tf() { return N; }\nvoid t() { tf<7>(); tf<@>(); }\n", Look::FnTemplateArg, Rule::SameInt, via T::UInt, "@"),
+    site!("tstruct_two", "template<uint N> struct TS { float pa[N]; };\nvoid t() { TS<7> ta; TS<@> tb; }\n", Look::MemberArray("TS", "pa"), ARR, via T::UInt, "@"),
     site!("template_mixed", "template<typename TT, uint N> TT tf() { return (TT)N; }\nvoid t() { tf<float, @>(); }\n", Look::FnTemplateArg, Rule::SameInt, via T::UInt, "@"),
     site!("vector_dim", "vector<float, @> pv;\n", Look::Dims("pv"), Rule::Dim { before: "", after: "" }),
     site!("matrix_rows", "matrix<float, @, 2> pv;\n", Look::Dims("pv"), Rule::Dim { before: "", after: ",2" }),
